@@ -17,6 +17,7 @@ OK_All == {"del", "other", "as", "malformed", "empty"}
 Sym == Permutations(Inst)
 NoFaults == {}
 F_Fail == {"fail"}
+F_FailWatch == {"failwatch"}
 F_Lose == {"loseack"}
 F_Part == {"partition"}
 F_Drop == {"drop"}
@@ -67,6 +68,8 @@ D_stop_keeps_claim == {"stop_keeps_claim"}
 D_takeover_ge == {"takeover_ge"}
 D_validation_first_error_demotes == {"validation_first_error_demotes"}
 D_validation_failure_notifies_unconditionally == {"validation_failure_notifies_unconditionally"}
+D_disconnect_ignored_while_follower == {"disconnect_ignored_while_follower"}
+D_watch_failure_gives_up == {"watch_failure_gives_up"}
 D_aborted_stop_skips_ondemote == {"aborted_stop_skips_ondemote"}
 D_watcher_demotion_without_callback == {"watcher_demotion_without_callback"}
 =============================================================================
